@@ -123,8 +123,8 @@ namespace lang
             if (key >= capacity_)
                 raise("Key is larger than capacity");
 
-            if (key > size_)
-                raise("Key is larger than size, use append() instead");
+            if (key >= size_)
+                raise("Key is not smaller than size, use append() instead");
 
             return data_[key];
         }
@@ -139,8 +139,8 @@ namespace lang
             if (key >= capacity_)
                 raise("Key is larger than capacity!");
 
-            if (key > size_)
-                raise("Key is larger than size, use emplace_back() instead!");
+            if (key >= size_)
+                raise("Key is not smaller than size, use emplace_back() instead!");
 
             return data_[key];
         }
